@@ -167,12 +167,13 @@ def poll_yield_map(fn):
 
 # --------------------------------------------------------------------------- branches
 
-def bool_branch(fn, local):
+def bool_branch(fn, local, as_variable=False):
     """Find switchInt terminators that test the boolean held in `local`
-    (directly or through Not / copies).  Returns list of (bb, true_target, false_target)."""
+    (directly or through Not / copies).  Returns list of (bb, true_target, false_target).
+    `as_variable`: the caller reasons about every definition of the local (a flag variable), not about one producer."""
     out = []
     # forward: local -> copies / Not
-    if len(fn.defs.get(local, ())) > 1:
+    if len(fn.defs.get(local, ())) > 1 and not as_variable:
         return out   # assigned on several paths (`x = a || f()`): a test of the local is not a test of this one value
     pol = {local: True}
     changed = True
@@ -553,7 +554,8 @@ def option_tests(fn, locals_of_interest=None):
 
 def truth_implies(fn, local, want=True, depth=6, _seen=None):
     """Facts that necessarily hold when the boolean `local` has the value `want`:
-    returns a list of ('call', Call, bool)  -- that call returned that value --  and ('at', block) -- control passed that block,
+    returns a list of ('call', Call, bool)  -- that call returned that value --,  ('at', block) -- control passed that block --
+    and ('place', place, bool) -- the boolean place read at that point had that value --,
     or None when the analysis does not understand how the local is computed.  Handles copies, negation, calls, and the
     multi-assignment lowering of `a && b` / `a || b` (one constant arm, one computed arm)."""
     _seen = _seen or set()
@@ -588,7 +590,7 @@ def truth_implies(fn, local, want=True, depth=6, _seen=None):
             return out
         p = op_place(rv["a"])
         if len(p) != 1:
-            return None
+            return out + [("place", tuple(p), want)]      # a boolean field / dereference read here
         r = truth_implies(fn, p[0], want, depth - 1, _seen)
         return None if r is None else out + r
     if k == "unop" and rv["op"] == "Not":
